@@ -46,6 +46,23 @@ for f, n, q in (("CSC", 8, 0), ("CCC", 8, 0), ("CCCC", 8, 0), ("CCSC", 16, 1), (
 UNITS.append(dict(name="c14_rs_reedsShepp", template="C14/rs_select.c", mode="plain", entry="h_reedsShepp", sources=RS_SRC, needs=["rs_reedsShepp"], flags=FLAGS, unwind=18, backend="minisat", timeout=300, level="proof",
                   functions=["reedsShepp(x, y, phi) (ReedsSheppStateSpace.cpp)"], canaries=[dict(name="family_skipped", where="body:rs_reedsShepp", rx=r"FAM\(2, path\);", repl="")]))
 
+# ---- dispatcher dubins(d, alpha, beta); Reeds-Shepp cached interpolate and distance ----
+X_RULES = [(r"return \{DubinsStateSpace::dubinsPathType\(\)\[0\], 0, d, 0\};", "return MAKE_ZERO(d);", 1), (r"\bmod2pi\(", "MOD2PI(", 1),
+           (r"isLongPath\(d, alpha, beta\) \? ::dubinsClassification\(d, alpha, beta\) : ::dubinsExhaustive\(d, alpha, beta\)", "IS_LONG(d, alpha, beta) ? CLASSIFY(d, alpha, beta) : EXHAUST(d, alpha, beta)", 0),
+           (r"::dubinsClassification\(", "CLASSIFY(", 0), (r"::dubinsExhaustive\(", "EXHAUST(", 0), (r"\bisLongPath\(", "IS_LONG(", 0)]
+RI_RULES = [(r"path = reedsShepp\(from, to\);", "*path = RS_PATH(from, to);", 1), (r"firstTime = false;", "*firstTime = false;", 1), (r"if \(firstTime\)", "if (*firstTime)", 1),
+            (r"interpolate\(from, path, t, state\);", "INTERP_PATH(from, path, t, state, rho_);", 1)]
+RD_RULES = [(r"reedsShepp\((\w+), (\w+)\)\.length\(\)", r"RSLEN(\1, \2)", 1), (r"return rho_ \* (.+);", r"return RTIMES(rho_, \1);", 1)]
+SRC += [
+    dict(name="dub_dispatch", file=DUB, sig=r"\nDubinsStateSpace::DubinsPath dubins\(double d, double alpha, double beta\)", rules=X_RULES, loops={}),
+    dict(name="rs_interpolate", file=RS, sig=r"void ompl::base::ReedsSheppStateSpace::interpolate\(const State \*from, const State \*to, const double t, bool &firstTime,\s*ReedsSheppPath &path, State \*state\) const", rules=RI_RULES, loops={}),
+    dict(name="rs_distance", file=RS, sig=r"double ompl::base::ReedsSheppStateSpace::distance\(const State \*state1, const State \*state2\) const", rules=RD_RULES, loops={}),
+]
+for h, need, fn, can in (("dispatch", "dub_dispatch", "dubins(d, alpha, beta) (DubinsStateSpace.cpp)", [dict(name="exhaustive_for_long_paths", where="body:dub_dispatch", rx=r"IS_LONG\(d, alpha, beta\) \?", repl="!IS_LONG(d, alpha, beta) ?")]),
+                          ("rs_interpolate", "rs_interpolate", "ompl::base::ReedsSheppStateSpace::interpolate(from, to, t, firstTime, path, state)", [dict(name="end_pose_not_copied", where="body:rs_interpolate", rx=r"copyState\(state, to\);", repl="")]),
+                          ("rs_distance", "rs_distance", "ompl::base::ReedsSheppStateSpace::distance", [dict(name="reverse_direction", where="body:rs_distance", rx=r"RSLEN\(state1, state2\)", repl="RSLEN(state2, state1)")])):
+    UNITS.append(dict(name="c14_" + h, template="C14/dubins_select.c", mode="plain", entry="h_" + h, sources=SRC, needs=[need], flags=FLAGS, unwind=9, backend="minisat", timeout=300, level="proof", functions=[fn], canaries=can))
+
 ASSUMPTIONS = ["Reeds-Shepp candidate lengths range over 8-bit ranks: the families only compare lengths, so every configuration of non-NaN lengths is order-isomorphic to one of these (WLOG, not machine-checked)", "the Reeds-Shepp families enumerate 8 + 8 + 8 + 16 + 4 = 44 candidate words (count taken from the construction: words x timeflip/reflect, CCC and CCSC also backwards)", "word lengths are non-NaN doubles ('no solution' is a huge finite length, as the word solvers return)", "radius * x is a trusted external operation (recorded)", "DUBINS_EPS = 1e-6 as in the source"]
 TRUSTED = ["extraction rewrite table of units/C14.py", "stubs in units/C14/*.c", "CBMC 6.11 + minisat"]
 NOT_COVERED = ["every trigonometric clause: the six word solvers, the classification tables for long paths (dubinsClassification), mod2pi, curve integration in interpolate, 'ends exactly at the target pose' for 0 < t < 1 ... t -> 1, arc length = reported distance, distance >= straight line, Reeds-Shepp <= Dubins, prefix optimality",
